@@ -58,6 +58,12 @@ pub enum Layout {
     },
     /// offset lookups valid only on the range
     Offset { off_o: usize, off_n: usize },
+    /// block-structured whole slices: each side is a sequence of up to 5 blocks drawn from
+    /// 3 block types (255 = no block); a block type is `blen` items (type 1: one item fewer); all items of all block
+    /// types are assumed pairwise different (one z3 distinct), so the equality pattern is
+    /// fixed by the shape and there is a single path.  Covers block moves, duplicated blocks,
+    /// repeated items across a shared head / tail on inputs of up to 15 items a side.
+    Blocks { old: [u8; 5], new: [u8; 5], blen: usize },
 }
 
 impl Layout {
@@ -72,6 +78,9 @@ impl Layout {
             Layout::Offset { off_o, off_n } => {
                 serde_json::json!({"kind":"offset","off_o":off_o,"off_n":off_n})
             }
+            Layout::Blocks { old, new, blen } => {
+                serde_json::json!({"kind":"blocks","old":old.to_vec(),"new":new.to_vec(),"blen":blen})
+            }
         }
     }
     pub fn from_json(v: &serde_json::Value) -> Layout {
@@ -83,6 +92,15 @@ impl Layout {
                 pre_n: g("pre_n"),
                 post_n: g("post_n"),
             }
+        } else if v["kind"] == "blocks" {
+            let arr = |k: &str| -> [u8; 5] {
+                let mut a = [255u8; 5];
+                for (i, x) in v[k].as_array().unwrap().iter().enumerate() {
+                    a[i] = x.as_u64().unwrap() as u8;
+                }
+                a
+            };
+            Layout::Blocks { old: arr("old"), new: arr("new"), blen: g("blen") }
         } else {
             Layout::Offset {
                 off_o: g("off_o"),
@@ -148,6 +166,24 @@ pub fn make_inputs(n: usize, m: usize, layout: Layout) -> Inputs {
                 new: Seq::Slice(new),
                 or,
                 nr,
+            }
+        }
+        Layout::Blocks { old, new, blen } => {
+            let pool: Vec<Vec<Sym>> = (0..3).map(|t| Sym::fresh_vec(block_type_len(t, blen))).collect();
+            let ids: Vec<u32> = pool.iter().flatten().map(|x| x.0).collect();
+            engine::assume(&F::Distinct(ids.clone()));
+            for id in ids {
+                engine::set_hash_class(id, id as u64);
+            }
+            let build = |bs: &[u8; 5]| -> Vec<Sym> { bs.iter().filter(|b| **b != 255).flat_map(|b| pool[*b as usize].iter().copied()).collect() };
+            let (o, nw) = (build(&old), build(&new));
+            Inputs {
+                or: 0..o.len(),
+                nr: 0..nw.len(),
+                old_items: o.clone(),
+                new_items: nw.clone(),
+                old: Seq::Slice(o),
+                new: Seq::Slice(nw),
             }
         }
         Layout::Offset { off_o, off_n } => {
@@ -652,14 +688,21 @@ use std::rc::Rc;
 pub struct Clock {
     pub probes: Rc<Cell<u32>>,
     pub fired_at: Rc<Cell<Option<u32>>>,
+    /// the distinct deadlines the probes were about
+    pub deadlines_seen: Rc<std::cell::RefCell<Vec<std::time::Instant>>>,
 }
 
 pub fn install_clock() -> Clock {
     let probes = Rc::new(Cell::new(0u32));
     let fired_at = Rc::new(Cell::new(None));
     let (p2, f2) = (probes.clone(), fired_at.clone());
+    let deadlines_seen = Rc::new(std::cell::RefCell::new(Vec::new()));
+    let d2 = deadlines_seen.clone();
     let mut prev: Option<u32> = None;
-    similar::verif_clock::install(Some(Box::new(move || {
+    similar::verif_clock::install(Some(Box::new(move |dl: std::time::Instant| {
+        if !d2.borrow().contains(&dl) {
+            d2.borrow_mut().push(dl);
+        }
         let k = p2.get();
         p2.set(k + 1);
         if f2.get().is_some() {
@@ -681,7 +724,7 @@ pub fn install_clock() -> Clock {
         }
         r
     })));
-    Clock { probes, fired_at }
+    Clock { probes, fired_at, deadlines_seen }
 }
 
 /// Every run starts from a clean hook state.
@@ -693,6 +736,19 @@ pub fn reset_hooks() {
 
 pub fn any_instant() -> Option<std::time::Instant> {
     Some(std::time::Instant::now())
+}
+
+/// Every probe of the run must have been about exactly this deadline (the one
+/// the caller configured): plumbing is exact, not just "some deadline arrived".
+pub fn claim_only_deadline(clock: &Clock, expect: std::time::Instant, what: &str) {
+    for d in clock.deadlines_seen.borrow().iter() {
+        claim!(
+            *d == expect,
+            "{}: a deadline check was made against a different deadline than the configured one (off by {:?})",
+            what,
+            if *d > expect { *d - expect } else { expect - *d }
+        );
+    }
 }
 
 pub static CONSTS: std::sync::OnceLock<serde_json::Value> = std::sync::OnceLock::new();
@@ -712,4 +768,56 @@ pub fn entails_disjoint(a: &[Sym], b: &[Sym]) -> bool {
         }
     }
     engine::entails(&F::And(fs))
+}
+
+
+/// All block-structured layouts: sequences of 0..=max_blocks blocks over 3 block types per side.
+pub fn block_layouts(max_blocks: usize, blen: usize) -> Vec<Layout> {
+    fn seqs(max: usize) -> Vec<[u8; 5]> {
+        let mut out = vec![[255u8; 5]];
+        let mut cur = vec![([255u8; 5], 0usize)];
+        for _ in 0..max {
+            let mut nx = vec![];
+            for (a, l) in &cur {
+                for t in 0..3u8 {
+                    let mut b = *a;
+                    b[*l] = t;
+                    nx.push((b, l + 1));
+                }
+            }
+            out.extend(nx.iter().map(|x| x.0));
+            cur = nx;
+        }
+        out
+    }
+    let ss = seqs(max_blocks.min(5));
+    let mut v = vec![];
+    for o in &ss {
+        for n in &ss {
+            let canonical = true; // block types have different lengths: no renaming symmetry
+            if canonical {
+                v.push(Layout::Blocks { old: *o, new: *n, blen });
+            }
+        }
+    }
+    v
+}
+
+/// block type 1 is one item shorter than types 0 and 2 (so that blocks of different weight meet)
+pub fn block_type_len(t: usize, blen: usize) -> usize {
+    if t == 1 {
+        (blen - 1).max(1)
+    } else {
+        blen
+    }
+}
+
+pub fn layout_lens(l: &Layout, n: usize, m: usize) -> (usize, usize) {
+    match l {
+        Layout::Blocks { old, new, blen } => {
+            let f = |bs: &[u8; 5]| bs.iter().filter(|b| **b != 255).map(|b| block_type_len(*b as usize, *blen)).sum::<usize>();
+            (f(old), f(new))
+        }
+        _ => (n, m),
+    }
 }
